@@ -622,16 +622,35 @@ Definition wz (l : list (Z * Z)) (p : Z * Z) : Z := if zpair_mem (snd p, fst p) 
 
 Lemma default_weights_z_unfold tx rx :
   default_weights_z tx rx
-  = if length tx =? length rx then Some (map (wz (combine tx rx)) (combine tx rx)) else None.
+  = if length tx =? length rx then
+      if length tx =? 0 then None else Some (map (wz (combine tx rx)) (combine tx rx))
+    else None.
 Proof. reflexivity. Qed.
 
-Lemma default_weights_z_raises tx rx : default_weights_z tx rx = None <-> length tx <> length rx.
+(* REPAIRED (model made faithful): np.nditer raises ValueError on a zero-sized array, so two empty
+   lists raise as well; before the repair the model answered Some [] there *)
+Lemma default_weights_z_empty : default_weights_z [] [] = None.
+Proof. reflexivity. Qed.
+
+Lemma default_weights_z_raises tx rx :
+  default_weights_z tx rx = None <-> length tx <> length rx \/ (tx = [] /\ rx = []).
 Proof.
-  rewrite default_weights_z_unfold. destruct (Nat.eqb_spec (length tx) (length rx)) as [E|E]; split; intros H.
-  - discriminate.
-  - now elim H.
-  - exact E.
-  - reflexivity.
+  rewrite default_weights_z_unfold. destruct (Nat.eqb_spec (length tx) (length rx)) as [E|E].
+  - destruct tx as [|a tx].
+    + destruct rx as [|b rx]; [|discriminate]. split; [intros _; right; now split|reflexivity].
+    + cbn [length Nat.eqb]. split; [discriminate|]. intros [H|[H _]]; [now elim H|discriminate].
+  - split; [intros _; now left|reflexivity].
+Qed.
+
+(* the call returns exactly on two non-empty lists of the same length *)
+Lemma default_weights_z_defined tx rx :
+  (exists w, default_weights_z tx rx = Some w) <-> length tx = length rx /\ tx <> [].
+Proof.
+  rewrite default_weights_z_unfold. destruct (Nat.eqb_spec (length tx) (length rx)) as [E|E].
+  - destruct tx as [|a tx]; cbn [length Nat.eqb].
+    + split; [intros [w H]; discriminate|intros [_ H]; now elim H].
+    + split; [intros _; split; [exact E|discriminate]|intros _; eexists; reflexivity].
+  - split; [intros [w H]; discriminate|intros [H _]; contradiction].
 Qed.
 
 (* weight 1 exactly where the reciprocal pair is somewhere in the frame, 2 exactly where it is
@@ -644,6 +663,7 @@ Lemma default_weights_z_spec tx rx w :
     (~ In (b, a) (combine tx rx) -> nth_error w k = Some 2%Z).
 Proof.
   rewrite default_weights_z_unfold. destruct (Nat.eqb_spec (length tx) (length rx)) as [E|]; [|discriminate].
+  destruct (length tx =? 0); [discriminate|].
   intros H. injection H as <-. split.
   - rewrite map_length, combine_length, <- E. apply Nat.min_id.
   - intros k a b Ha Hb. rewrite nth_error_map, tg_nth_error_combine, Ha, Hb. cbn [option_map].
@@ -670,6 +690,7 @@ Lemma default_weights_z_perm tx rx tx' rx' w w' :
 Proof.
   rewrite !default_weights_z_unfold. intros HP.
   destruct (length tx =? length rx); [|discriminate]. destruct (length tx' =? length rx'); [|discriminate].
+  destruct (length tx =? 0); [discriminate|]. destruct (length tx' =? 0); [discriminate|].
   intros H H'. injection H as <-. injection H' as <-. rewrite !tg_combine_map_r.
   rewrite (map_ext (fun x => (x, wz (combine tx' rx') x)) (fun x => (x, wz (combine tx rx) x))).
   - now apply Permutation_map.
@@ -687,12 +708,18 @@ Proof.
   cbn [map existsb fst snd]. now rewrite IH, !tg_Zeqb_of_nat.
 Qed.
 
-(* on non-negative indices it is the nat model of C15 on which the theorems are stated *)
+(* on non-negative indices it is the nat model of C15 on which the theorems are stated.
+   REPAIRED: restricted to a NON-EMPTY frame; on l = [] the library raises (np.nditer) whereas the
+   total function of C15 (Model/Frame.v, default_timetrace_weights : list (nat * nat) -> list nat)
+   answers [] *)
 Lemma default_weights_z_nat (l : list (nat * nat)) :
+  l <> [] ->
   default_weights_z (map (fun p => Z.of_nat (fst p)) l) (map (fun p => Z.of_nat (snd p)) l)
   = Some (map Z.of_nat (default_timetrace_weights l)).
 Proof.
-  rewrite default_weights_z_unfold, !map_length, Nat.eqb_refl. f_equal.
+  intros Hne. rewrite default_weights_z_unfold, !map_length, Nat.eqb_refl.
+  assert (E0 : (length l =? 0) = false) by (destruct l; [now elim Hne|reflexivity]).
+  rewrite E0. clear Hne E0. f_equal.
   rewrite combine_map_same. unfold default_timetrace_weights. rewrite !map_map. apply map_ext. intros [a b].
   unfold wz. cbn [fst snd swap].
   pose proof (zpair_mem_nat b a l) as E.
@@ -1022,6 +1049,101 @@ Section ND.
     cbn [option_map] in H. injection H as <-. exists wss. split; [reflexivity|]. intros idx. apply nd_get_map.
   Qed.
 
+  (* ---- tfm_for_view on a grid of any shape.  REPAIRED (model made faithful): tfm_for_view_nd now
+     answers None when a ray-time table has a width different from prod(grid.shape) (the library
+     raises: FocalLaw assertion, tfm.py:214, or reshape ValueError, tfm.py:466); before the repair
+     the columns in excess were silently dropped by MinPlus.transpose. ---- *)
+  Lemma times_width_ok_iff {A} p (t : list (list A)) :
+    times_width_ok p t = true <-> Forall (fun row => length row = p) t.
+  Proof.
+    unfold times_width_ok. rewrite forallb_forall, Forall_forall.
+    split; intros H row Hr; apply Nat.eqb_eq; now apply H.
+  Qed.
+
+  Lemma times_width_ok_false {A} p (t : list (list A)) :
+    times_width_ok p t = false <-> Exists (fun row => length row <> p) t.
+  Proof.
+    unfold times_width_ok. induction t as [|row t IH]; cbn [forallb].
+    - split; [discriminate|]. intros H. inversion H.
+    - destruct (Nat.eqb_spec (length row) p) as [E|E]; cbn [andb].
+      + rewrite IH. split; [now right|]. intros H. inversion H; [contradiction|assumption].
+      + split; [intros _; now left|reflexivity].
+  Qed.
+
+  (* one value per column of the ray times *)
+  Lemma tfm_for_view_length sc ns dt t0 fill p rtx rrx amps ss res :
+    Forall (fun row => length row = p) (r_times rtx) ->
+    tfm_for_view N V sc ns dt t0 fill p rtx rrx amps ss = Some res -> length res = p.
+  Proof.
+    intros Htx H. unfold tfm_for_view in H. apply delay_and_sum_rows in H as (rows & wss & Hr & _ & ->).
+    rewrite map_length, (focal_rows_length _ _ _ _ Hr). now apply tg_transpose_length.
+  Qed.
+
+  (* ray times of shape (numelements, prod(grid.shape)): none of the glue checks fires and the
+     reshape succeeds: the call is the core call followed by reshape(grid.shape); with or without
+     amplitudes it raises exactly when the core call raises *)
+  Lemma tfm_for_view_nd_eq sc ns dt t0 fill s rtx rrx amps ss :
+    Forall (fun row => length row = shape_size s) (r_times rtx) ->
+    Forall (fun row => length row = shape_size s) (r_times rrx) ->
+    tfm_for_view_nd N V sc ns dt t0 fill s rtx rrx amps ss
+    = option_map (nd_reshape (dzero V) s)
+                 (tfm_for_view N V sc ns dt t0 fill (shape_size s) rtx rrx amps ss).
+  Proof.
+    intros Htx Hrx. unfold tfm_for_view_nd.
+    rewrite (proj2 (times_width_ok_iff _ _) Htx), (proj2 (times_width_ok_iff _ _) Hrx). cbn [andb].
+    destruct (tfm_for_view N V sc ns dt t0 fill (shape_size s) rtx rrx amps ss) as [res|] eqn:E; [|reflexivity].
+    unfold np_reshape. rewrite (tfm_for_view_length _ _ _ _ _ _ _ _ _ _ _ Htx E), Nat.eqb_refl.
+    now rewrite (proj2 (tfm_result_iff s s) eq_refl).
+  Qed.
+
+  (* a ray-time table of another width: the call raises, whatever the other arguments *)
+  Lemma tfm_for_view_nd_wrong_width sc ns dt t0 fill s rtx rrx amps ss :
+    Exists (fun row => length row <> shape_size s) (r_times rtx) \/
+    Exists (fun row => length row <> shape_size s) (r_times rrx) ->
+    tfm_for_view_nd N V sc ns dt t0 fill s rtx rrx amps ss = None.
+  Proof.
+    intros [H|H]; apply times_width_ok_false in H; unfold tfm_for_view_nd; rewrite H;
+      [reflexivity|now rewrite andb_false_r].
+  Qed.
+
+  (* the call raises exactly when a width is wrong or the core call (amplitude shapes, an
+     interpolation the amplitude kernels do not have) raises *)
+  Lemma tfm_for_view_nd_raises_iff sc ns dt t0 fill s rtx rrx amps ss :
+    tfm_for_view_nd N V sc ns dt t0 fill s rtx rrx amps ss = None <->
+    Exists (fun row => length row <> shape_size s) (r_times rtx) \/
+    Exists (fun row => length row <> shape_size s) (r_times rrx) \/
+    tfm_for_view N V sc ns dt t0 fill (shape_size s) rtx rrx amps ss = None.
+  Proof.
+    destruct (times_width_ok (shape_size s) (r_times rtx)) eqn:Etx.
+    - destruct (times_width_ok (shape_size s) (r_times rrx)) eqn:Erx.
+      + pose proof (proj1 (times_width_ok_iff _ _) Etx) as Htx.
+        pose proof (proj1 (times_width_ok_iff _ _) Erx) as Hrx.
+        rewrite (tfm_for_view_nd_eq _ _ _ _ _ _ _ _ _ _ Htx Hrx).
+        destruct (tfm_for_view N V sc ns dt t0 fill (shape_size s) rtx rrx amps ss) as [res|]; cbn [option_map].
+        * split; [discriminate|]. intros [H|[H|H]]; [| |discriminate]; apply times_width_ok_false in H; congruence.
+        * split; [intros _; right; now right|reflexivity].
+      + apply times_width_ok_false in Erx. split; [intros _; right; now left|].
+        intros _. apply tfm_for_view_nd_wrong_width. now right.
+    - apply times_width_ok_false in Etx. split; [intros _; now left|].
+      intros _. apply tfm_for_view_nd_wrong_width. now left.
+  Qed.
+
+  (* without amplitudes the core never raises: the widths decide alone *)
+  Lemma tfm_for_view_nd_noamp_raises_iff sc ns dt t0 fill s rtx rrx ss :
+    tfm_for_view_nd N V sc ns dt t0 fill s rtx rrx None ss = None <->
+    Exists (fun row => length row <> shape_size s) (r_times rtx) \/
+    Exists (fun row => length row <> shape_size s) (r_times rrx).
+  Proof.
+    rewrite tfm_for_view_nd_raises_iff. split; [|intros [H|H]; [now left|right; now left]].
+    intros [H|[H|H]]; [now left|now right|].
+    destruct (times_width_ok (shape_size s) (r_times rtx)) eqn:Etx;
+      [|left; now apply times_width_ok_false].
+    destruct (times_width_ok (shape_size s) (r_times rrx)) eqn:Erx;
+      [|right; now apply times_width_ok_false].
+    apply times_width_ok_iff in Etx. apply times_width_ok_iff in Erx.
+    rewrite (tfm_for_view_map N V _ _ _ _ _ _ _ _ _ Etx Erx) in H. discriminate.
+  Qed.
+
   (* tfm_for_view: ray times of shape (numelements, prod(grid.shape)) *)
   Lemma tfm_for_view_nd_get sc ns dt t0 fill s rtx rrx ss :
     Forall (fun row => length row = shape_size s) (r_times rtx) ->
@@ -1031,8 +1153,8 @@ Section ND.
       forall idx k, ravel s idx = Some k ->
         nd_get (length s) img idx = Some (view_pixel N V sc ns dt t0 fill (r_times rtx) (r_times rrx) ss k).
   Proof.
-    intros Htx Hrx. unfold tfm_for_view_nd. rewrite (tfm_for_view_map N V _ _ _ _ _ _ _ _ _ Htx Hrx).
-    unfold np_reshape. rewrite map_length, seq_length, Nat.eqb_refl, (proj2 (tfm_result_iff s s) eq_refl).
+    intros Htx Hrx. rewrite (tfm_for_view_nd_eq _ _ _ _ _ _ _ _ _ _ Htx Hrx).
+    rewrite (tfm_for_view_map N V _ _ _ _ _ _ _ _ _ Htx Hrx). cbn [option_map].
     eexists. split; [reflexivity|].
     assert (Hl : length (map (view_pixel N V sc ns dt t0 fill (r_times rtx) (r_times rrx) ss) (seq 0 (shape_size s)))
                  = shape_size s) by now rewrite map_length, seq_length.
@@ -1040,13 +1162,17 @@ Section ND.
     rewrite (get_reshape _ _ _ idx k Hl Hr), nth_error_map, (nth_error_seq 0 _ k (ravel_lt _ _ _ Hr)). reflexivity.
   Qed.
 
-  (* wrong number of grid points in the ray times: the reshape raises *)
+  (* a core result of a wrong length: the reshape raises (kept from before the repair; now the width
+     check answers None first, and when it passes the core result has length prod(s) by
+     tfm_for_view_length, so the two hypotheses meet only where the width check already fails) *)
   Lemma tfm_for_view_nd_wrong_size sc ns dt t0 fill s rtx rrx amps ss res :
     tfm_for_view N V sc ns dt t0 fill (shape_size s) rtx rrx amps ss = Some res ->
     length res <> shape_size s ->
     tfm_for_view_nd N V sc ns dt t0 fill s rtx rrx amps ss = None.
   Proof.
-    intros H Hl. unfold tfm_for_view_nd. rewrite H. unfold np_reshape.
+    intros H Hl. unfold tfm_for_view_nd.
+    destruct (times_width_ok _ (r_times rtx) && times_width_ok _ (r_times rrx)); [|reflexivity].
+    rewrite H. unfold np_reshape.
     destruct (Nat.eqb_spec (length res) (shape_size s)); [contradiction|reflexivity].
   Qed.
 
